@@ -14,7 +14,7 @@ def sizes(tier):
     n_sweep = len(GEN.c05_census(tier, sweep=True)) + 1      # one constructor-clause sweep per census class, heavy ones included (+ the probe class)
     if tier == "quick":
         return n_sweep, 900, 1500.0
-    return n_sweep, 6000, 3 * 3600.0
+    return n_sweep, 3000, 3 * 3600.0
 
 
 def extra(agg):
